@@ -23,7 +23,8 @@ RULE = (
     "under sys.setswitchinterval(1e-6), 40 repetitions per case. Oracle: every output array is bit-for-bit (bytes, "
     "dtype, shape) the serial result of a fresh twin cube and fresh function objects. Non-trivial (det) = at least "
     "2 workers alive and at least one pre-emption actually taken; (real) = pool size >= 2 with >= 3 sub-cubes. "
-    "Distinct by (case, schedule). 'Every interleaving' is sampled, not enumerated; NumPy C calls are atomic steps "
+    "det_large / real_large: the same with 1 100..4 200 rows (stored as a recipe) so that size thresholds inside the "
+    "aggregate functions (buffers, fast paths) are crossed. Distinct by (case, schedule). 'Every interleaving' is sampled, not enumerated; NumPy C calls are atomic steps "
     "for DetPool."
 )
 ASSUMPTIONS = [
@@ -73,9 +74,75 @@ def cases(draw, tier, mode):
     return case
 
 
+def expand_large(case):
+    """Large cases are stored as recipes (thousands of rows would bloat replay files); expand them here."""
+    if not case.get("large"):
+        return case
+    N = case["N"]
+    a, b, c = case["large"]
+    case = dict(case)
+    dims = []
+    for j, d in enumerate(case["dims"]):
+        size = N
+        for e in d["tail"]:
+            size *= e
+        ext = d["extent"]
+        data = [((i * (a + j)) // (1 + (i % (b + 2))) + i // (c + 3)) % ext for i in range(size)]
+        dims.append(dict(d, data=data))
+    case["dims"] = dims
+    f = dict(case["fact"])
+    K = f["K"] or 1
+    f["values"] = [((i * 7 + a) % 41) - 20 for i in range(N * K)]
+    f["valid"] = [((i + b) % 11) != 0 for i in range(N * K)]
+    f["junk"] = [i % 3 for i in range(N * K)]
+    case["fact"] = f
+    if case["weights"] is not None:
+        w = dict(case["weights"])
+        w["values"] = [512 * (1 + (i + c) % 4) for i in range(N)]
+        w["valid"] = [((i + a) % 13) != 0 for i in range(N)]
+        w["junk"] = [i % 3 for i in range(N)]
+        case["weights"] = w
+    return case
+
+
+@st.composite
+def large_cases(draw, tier, mode):
+    """A few thousand rows: size thresholds inside the aggregate functions (buffers, fast paths) are crossed."""
+    N = draw(st.sampled_from([1100, 2100, 2500, 4200]))
+    tail = draw(st.sampled_from([(3,), (4,), (2, 2), (6,)]))
+    dims = [{"tail": list(tail), "extent": draw(st.integers(2, 3)), "common": draw(st.integers(0, 2)), "big": False}]
+    if draw(st.booleans()):
+        dims.append({"tail": [], "extent": 2, "common": draw(st.integers(0, 1)), "big": False})
+    case = {"N": N, "dims": dims, "shape_mode": "exact", "pads": [1] * len(dims),
+            "kind": draw(st.sampled_from(["ccube", "xcube"])),
+            "large": [draw(st.integers(1, 9)), draw(st.integers(0, 9)), draw(st.integers(0, 9))]}
+    case["fact"] = {"K": draw(st.sampled_from([None, None, 2])), "dtype": "float",
+                    "form": draw(st.sampled_from(["nan", "tuple"])), "as_list": False, "dyadic": True}
+    case["weights"] = draw(st.sampled_from([None, {"kind": "array", "dtype": "float", "form": "tuple",
+                                                    "as_list": False, "rough": False}]))
+    aggs = c17.CAGGS if case["kind"] == "ccube" else c17.XAGGS
+    case["funcs"] = [{"agg": draw(st.sampled_from(aggs)), "ignore": draw(st.booleans()),
+                      "rma": draw(st.sampled_from(["nan", ["tuple", 0]])), "prob": 0.5,
+                      "weighted": draw(st.booleans())} for _ in range(draw(st.integers(1, 3)))]
+    case["poolsize"] = draw(st.integers(2, 6))
+    if mode == "det":
+        if draw(st.booleans()):
+            case["schedule"] = {"kind": "random", "prio": draw(st.permutations(list(range(16)))),
+                                "prob_per_mille": draw(st.integers(5, 80)), "seed": draw(st.integers(0, 10 ** 6))}
+        else:
+            pts = draw(st.lists(st.tuples(st.integers(1, 20000), st.integers(0, 15)), min_size=3, max_size=12))
+            case["schedule"] = {"kind": "preempt", "prio": draw(st.permutations(list(range(16)))),
+                                "points": [list(p) for p in pts]}
+    else:
+        case["schedule"] = {"kind": "real", "reps": 25}
+    return case
+
+
 def build_call(case):
     """Returns a function making (cube, function objects) afresh."""
     import numpy
+
+    case = expand_large(case)
 
     from catii import ccube, xcube
 
@@ -185,6 +252,10 @@ def check(case, rec):
 
 
 SUBS = [
+    Sub("det_large", check, strategy=lambda tier: large_cases(tier, "det"), examples={"quick": 240, "thorough": 8000},
+        weight=6),
+    Sub("real_large", check, strategy=lambda tier: large_cases(tier, "real"), examples={"quick": 16, "thorough": 600},
+        shards={"quick": 4, "thorough": 8}, weight=8),
     Sub("det", check, strategy=lambda tier: cases(tier, "det"), examples={"quick": 1600, "thorough": 100000},
         weight=5),
     Sub("real", check, strategy=lambda tier: cases(tier, "real"), examples={"quick": 48, "thorough": 3000},
